@@ -292,6 +292,9 @@ func (x *Exec) contractCall(st *State, key string, fc *FuncContract, c *ssa.Call
 			vars[names[i]] = v
 		}
 	}
+	if fnVal != nil && isSMTVal(fnVal) {
+		vars["callee"] = fnVal
+	}
 	if f := x.P.funcs[key]; f != nil && fnVal != nil && fnVal.K == VClosure {
 		for i, fv := range f.FreeVars {
 			if i < len(fnVal.Clo.Bindings) {
@@ -705,7 +708,7 @@ func (x *Exec) checkCallsClauses(st *State, key string, fc *FuncContract, c *ssa
 
 var deterministicPrefixes = []string{"strings.", "strconv.", "bytes.", "unicode.", "unicode/utf8.", "path.", "net.(IP).", "net/netip.", "net.ParseIP", "net.ParseCIDR",
 	"net.SplitHostPort", "net.JoinHostPort", "net/url.(*URL).", "net/url.Parse", "net/url.(Values).", "net/url.QueryUnescape", "net/url.PathUnescape", "net/textproto.", "mime.", "encoding/hex.", "encoding/base64.", "crypto/sha256.",
-	"math.", "time.(Duration).", "time.ParseDuration", "time.Parse", "time.(Time).Format", "net/http.StatusText", "net/http.(*Request).BasicAuth", "net/http.(*Request).Context", "errors.Unwrap", "path/filepath.Clean", "path/filepath.Dir", "path/filepath.Base", "path/filepath.Join"}
+	"math.", "time.(Duration).", "time.ParseDuration", "time.Parse", "time.(Time).Format", "net/http.StatusText", "google.golang.org/grpc/metadata.", "google.golang.org/grpc/status.Error", "net/http.(*Request).BasicAuth", "net/http.(*Request).Context", "errors.Unwrap", "path/filepath.Clean", "path/filepath.Dir", "path/filepath.Base", "path/filepath.Join"}
 
 // isDeterministicExtern: external functions modelled as uninterpreted *functions* of their (value) arguments.
 func isDeterministicExtern(key string) bool {
